@@ -386,13 +386,18 @@ func (fc *FuncCtx) ap0(v ssa.Value) string {
 	case *ssa.Phi:
 		var first string
 		same := true
-		for i, e := range x.Edges {
+		n := 0
+		for _, e := range x.Edges {
+			if isNilConst(e) && nillable(e.Type()) {
+				continue // "X or nothing" is named X
+			}
 			s := fc.AP(e)
-			if i == 0 {
+			if n == 0 {
 				first = s
 			} else if s != first {
 				same = false
 			}
+			n++
 		}
 		if same && first != "" {
 			return first
